@@ -96,6 +96,16 @@ def accessors(rep, cfg, r, rng):
     # counters at grid times
     if mask.all():
         tt = [float(rng.randrange(n) * dt) for _ in range(6)]
+        # a list of query times in arbitrary order gives, per entry, the count of the trajectory at that time
+        want0 = [int(np.sum(XS[:, int(round(t / dt))] != 0)) for t in tt]
+        want1 = [int(np.sum(XS[:, int(round(t / dt))] > thr)) for t in tt]
+        with impl.quiet():
+            got0 = [int(x) for x in S.sigmaCounter(list(tt), threshold=0, fromStates=True)]
+            got1 = [int(x) for x in S.sigmaCounter(list(tt), fromStates=True)]
+            got0s = [int(x) for x in S.sigmaCounter(list(tt), threshold=0)]
+        if got0 != want0 or got1 != want1 or got0s != want0:
+            rep.violation("counter-list-of-times", "%s: sigmaCounter(%s) = %s / %s / %s, trajectory has %s nucleated and %s solidified" % (
+                cfg["shape"], tt, got0, got1, got0s, want0, want1), dict(config=cfg, times=tt))
         for t in tt:
             k = int(round(t / dt))
             nuc_traj = int(np.sum(XS[:, k] != 0)); sol_traj = int(np.sum(XS[:, k] > thr))
@@ -146,6 +156,21 @@ def check(rep, tier):
         rep.count("store=%s" % ("all" if store == "all" else "subset")); rep.count("nucleated-vials", nn)
         inside_tot += oracle(rep, cfg, r_all, rng)
         accessors(rep, cfg, r, rng)
+        if ri % 4 == 0:
+            # the same object run again (other seed): statistics and state-derived values are those of the NEW trajectory
+            S2 = r["S"]
+            with impl.quiet():
+                S2.seed = cfg["seed"] + 17
+                S2._rng = fr.CountingRng(S2._rng)
+                S2.run()
+            r2 = dict(r, XT=np.array(S2.X_T), XS=np.array(S2.X_sigma), stats={k: np.array(v) for k, v in S2.stats.items()},
+                      hshelf=np.broadcast_to(np.asarray(S2.H_shelf, dtype=float), (r["N"],)).copy())
+            nv = len(rep.violations)
+            if store == "all":
+                oracle(rep, cfg, r2, rng)
+            accessors(rep, cfg, r2, rng)
+            for v in rep.violations[nv:]:
+                v["key"] = "rerun " + v["key"]; v["what"] = "after a second run() on the same object: " + v["what"]
         if r_all["nsteps"] * r_all["N"] <= 9000 and len(runs) < (14 if tier == "quick" else 80):
             runs.append((cfg, fr.coq_run_case(r_all)))
     rep.coverage["vials_inside_theorem_hypotheses"] = inside_tot
